@@ -117,7 +117,7 @@ PROPERTY_META = {
         deadline_quick=400, deadline_thorough=1700, engine='E2-HBFS', design_ref='5/C20',
         technique='exhaustive enumeration of RNG-API histories, each executed in fresh processes; bounded differential enumeration of planner runs across address-layout and heap-content environments',
         level_text='RNG API: every history up to depth 5/6 after setSeed(s), s in {1,2,12345}, executed twice in fresh processes and per generator against a solo process (i-th generator depends only on '
-                   'seed and i; reseeding reproduces a fresh RNG(localSeed)). Planners with the real generator: 33 single-threaded planners x continuous / tie-laden / SE(2) problems x seeds x budgets, '
+                   'seed and i; reseeding reproduces a fresh RNG(localSeed)). Planners with the real generator: 37 single-threaded planners (incl. 4 multilevel) x continuous / tie-laden / SE(2) problems x seeds x budgets, '
                    'each point in 5 processes differing in ASLR, heap offset and fresh-heap byte pattern; results must be identical.',
         level_note='Trusted: fork/exec isolation, the observation hash (status, flags, solution path bits). The seed, problem and budget quantifiers are finite sets; layouts are 5 environments, not all.'),
     'C04': dict(
